@@ -191,7 +191,7 @@ func jump(w *world, hs []*hist, renewers map[*client]bool) {
 	for _, h := range hs {
 		for _, c := range h.clients {
 			if renewers[c] && c.usable() {
-				if h.renew(c) {
+				if h.renewOnce(c) {
 					renewed[c] = true
 				}
 			}
@@ -264,10 +264,22 @@ func jump(w *world, hs []*hist, renewers map[*client]bool) {
 	for _, h := range hs {
 		for _, c := range h.clients {
 			if renewed[c] && c.usable() {
-				h.renew(c)
+				h.renewOnce(c)
 			}
 		}
 	}
+}
+
+// renewOnce renews the lease of c: explicitly (RENEW, or a compound
+// that only holds SEQUENCE) or, if the history asked for it, only
+// implicitly through a request that uses one of c's state IDs. RFC 7530
+// section 9.5 and RFC 8881 section 8.3: such a request renews the lease
+// just the same, so the state of c must survive.
+func (h *hist) renewOnce(c *client) bool {
+	if f := h.renewVia[c]; f != nil {
+		return f()
+	}
+	return h.renew(c)
 }
 
 // finalPhase ends a history: release all I/O, optionally close
